@@ -265,7 +265,7 @@ theorem http_exception_is_own_response (w : World) (stmts : List Stmt) (site : S
 
 /-- the statement `add_view(default_exceptionresponse_view, context=IExceptionResponse)` of `setup_registry`; `x` is the id
 of `IExceptionResponse` -/
-def defaultStmt (x tag : Nat) : Stmt := ⟨0, x, "", [], none, .unset, true, false, tag, .returnContext⟩
+def defaultStmt (x tag : Nat) : Stmt := ⟨0, x, "", [], none, .unset, true, false, tag, .returnContext, false⟩
 
 /-- its registration under the exception classifier: never protected (whatever policy / default permission) -/
 def defaultExcReg (x tag : Nat) : ViewReg := ⟨clsExc, 0, x, "", [], none, false, tag⟩
@@ -345,6 +345,212 @@ theorem refused_permission_yields_403 (w : World) (stmts : List Stmt) (r : Reque
   rw [← hstatus]
   exact default_view_renders_http_exception w stmts .lookup r comb ctxObj d w.forbidden x tag hc hw hcaught hmem hu hforce hx h0 honly
 
+/-! ## `Request.invoke_exception_view` with all its arguments, sites above the tween, the execution policy -/
+
+/-- **`invoke_exception_view(exc_info, request, secure, reraise)` does what its declarative reading says**, for every
+argument combination, statement list, request and prior attributes (`d` = the attribute dictionary of the request given
+as `request=`, or of the request the method is called on). -/
+theorem invoke_full_eq_spec (w : World) (stmts : List Stmt) (r : Request) (comb : List Nat) (args : InvokeArgs)
+    (current : Exc) (d : Dict) (prior : String → Option Nat) (hp : ∀ k, dget d k = prior k)
+    (hc : Coherent (allRegs w.sec stmts)) :
+    (invokeFull w (registerAll (allRegs w.sec stmts)) stmts r comb args current d).2.2
+        = (specInvoke w stmts r comb args current prior).outcome ∧
+    (invokeFull w (registerAll (allRegs w.sec stmts)) stmts r comb args current d).2.1
+        = (specInvoke w stmts r comb args current prior).seen ∧
+    ∀ k, dget (invokeFull w (registerAll (allRegs w.sec stmts)) stmts r comb args current d).1 k
+        = (specInvoke w stmts r comb args current prior).attr k :=
+  invokeCore_spec w stmts (effectiveRequest args r) (effectiveExc args current) comb d args.reraise prior hp hc
+
+/-- **No `exc_info` given ⇒ `sys.exc_info()`**: the call renders the exception being handled where it is made. -/
+theorem invoke_without_exc_info_uses_current (w : World) (reg : Registry) (stmts : List Stmt) (r : Request)
+    (comb : List Nat) (secure reraise : Bool) (current other : Exc) (d : Dict) :
+    invokeFull w reg stmts r comb ⟨none, secure, reraise⟩ current d
+      = invokeFull w reg stmts r comb ⟨some current, secure, reraise⟩ other d := rfl
+
+/-- **`secure=False` skips the permission check**: the first qualifying exception view answers even when it is protected
+and the policy refuses (the `__call_permissive__` path). -/
+theorem insecure_invocation_never_refused (w : World) (stmts : List Stmt) (r : Request) (comb : List Nat)
+    (reraise : Bool) (e : Exc) (d : Dict) (v : DView) (hc : Coherent (allRegs w.sec stmts))
+    (hwin : excWinner w stmts { r with permitted := true } e comb = some v) (hbody : bodyOf stmts v.tag = .respond) :
+    (invokeFull w (registerAll (allRegs w.sec stmts)) stmts r comb ⟨some e, false, reraise⟩ e d).2.2
+      = .ok (.view v.tag) := by
+  rw [(invoke_full_eq_spec w stmts r comb ⟨some e, false, reraise⟩ e d (dget d) (fun _ => rfl) hc).1]
+  simp [specInvoke, specCore, effectiveRequest, effectiveExc, hwin, hbody]
+
+/-- **`reraise=True` ⇒ whenever no response results the ORIGINAL exception is raised** (no view, a refusal, an
+exception view that raises), and the attributes read as before. -/
+theorem reraise_gives_original (w : World) (stmts : List Stmt) (r : Request) (comb : List Nat) (secure : Bool)
+    (e x : Exc) (d : Dict) (hc : Coherent (allRegs w.sec stmts))
+    (hout : (invokeFull w (registerAll (allRegs w.sec stmts)) stmts r comb ⟨some e, secure, true⟩ e d).2.2 = .error x) :
+    x = e ∧ ∀ k, dget (invokeFull w (registerAll (allRegs w.sec stmts)) stmts r comb ⟨some e, secure, true⟩ e d).1 k
+      = dget d k := by
+  obtain ⟨h1, _, h3⟩ := invoke_full_eq_spec w stmts r comb ⟨some e, secure, true⟩ e d (dget d) (fun _ => rfl) hc
+  rw [hout] at h1
+  simp only [specInvoke, specCore, effectiveExc] at h1 h3
+  cases hwin : excWinner w stmts (effectiveRequest ⟨some e, secure, true⟩ r) e comb with
+  | none =>
+    rw [hwin] at h1 h3
+    simp at h1
+    exact ⟨h1, fun k => by rw [h3 k]⟩
+  | some v =>
+    rw [hwin] at h1 h3
+    by_cases hs : (v.secured && !(effectiveRequest ⟨some e, secure, true⟩ r).permitted) = true
+    · simp [hs] at h1 h3
+      exact ⟨h1, fun k => by rw [h3 k]⟩
+    · cases hb : bodyOf stmts v.tag with
+      | respond => simp [hs, hb] at h1
+      | returnContext => simp [hs, hb] at h1
+      | raise e2 =>
+        simp [hs, hb] at h1 h3
+        exact ⟨h1, fun k => by rw [h3 k]⟩
+
+/-- **Explicit invocation gives what the tween gives** (`invoke_exception_view(exc_info, reraise=True)`, the pattern for
+execution policies and tweens placed over the excview tween, against `_error_handler`), in the cases where both apply:
+an exception view answers, or no exception view qualifies.  (They differ, by design, when a protected view refuses or an
+exception view raises something that is not an `HTTPNotFound`: the tween lets that exception out, `reraise=True` the
+original.) -/
+theorem explicit_invocation_eq_tween (w : World) (stmts : List Stmt) (r : Request) (comb : List Nat) (e : Exc) (d : Dict)
+    (hc : Coherent (allRegs w.sec stmts)) (hw : w.ok = true)
+    (happly : (∃ resp, (specRender w stmts r e comb d).outcome = .ok resp) ∨ excWinner w stmts r e comb = none) :
+    (invokeFull w (registerAll (allRegs w.sec stmts)) stmts r comb ⟨some e, true, true⟩ e d).2.2
+        = (errorHandler w (registerAll (allRegs w.sec stmts)) stmts (excRequest r e comb) e d).2.2 ∧
+    (invokeFull w (registerAll (allRegs w.sec stmts)) stmts r comb ⟨some e, true, true⟩ e d).2.1
+        = (errorHandler w (registerAll (allRegs w.sec stmts)) stmts (excRequest r e comb) e d).2.1 ∧
+    ∀ k, dget (invokeFull w (registerAll (allRegs w.sec stmts)) stmts r comb ⟨some e, true, true⟩ e d).1 k
+        = dget (errorHandler w (registerAll (allRegs w.sec stmts)) stmts (excRequest r e comb) e d).1 k := by
+  obtain ⟨h1, h2, h3⟩ := invoke_full_eq_spec w stmts r comb ⟨some e, true, true⟩ e d (dget d) (fun _ => rfl) hc
+  obtain ⟨g1, g2, g3⟩ := errorHandler_spec w stmts r e comb d hc hw
+  rw [h1, h2, g1, g2]
+  have key : (specInvoke w stmts r comb ⟨some e, true, true⟩ e (dget d)).outcome = (specRender w stmts r e comb d).outcome ∧
+      (specInvoke w stmts r comb ⟨some e, true, true⟩ e (dget d)).seen = (specRender w stmts r e comb d).seen ∧
+      (specInvoke w stmts r comb ⟨some e, true, true⟩ e (dget d)).attr = (specRender w stmts r e comb d).attr := by
+    simp only [specInvoke, specCore, specRender, effectiveExc, effectiveRequest, if_true] at happly ⊢
+    cases hwin : excWinner w stmts r e comb with
+    | none => simp
+    | some v =>
+      rw [hwin] at happly
+      rcases happly with ⟨resp, hr⟩ | hnone
+      · by_cases hs : (v.secured && !r.permitted) = true
+        · simp [hs] at hr
+        · cases hb : bodyOf stmts v.tag with
+          | respond => simp [hs, hb]; try rfl
+          | returnContext => simp [hs, hb]; try rfl
+          | raise e2 => simp [hs, hb] at hr
+      · simp at hnone
+  refine ⟨key.1, key.2.1, fun k => ?_⟩
+  rw [h3 k, g3 k, key.2.2]
+
+/-- `invoke_request` (tween chain, response callbacks, `NewResponse`) against its declarative reading -/
+theorem invokeRequest_eq_spec (w : World) (stmts : List Stmt) (above : Above) (site : Site) (r : Request)
+    (comb : List Nat) (ctxObj : Nat) (d : Dict) (hc : Coherent (allRegs w.sec stmts)) (hw : w.ok = true) :
+    (invokeRequest w stmts above site r comb ctxObj d).outcome = (specInvokeRequest w stmts above site r comb ctxObj d).outcome ∧
+    (invokeRequest w stmts above site r comb ctxObj d).seen = (specInvokeRequest w stmts above site r comb ctxObj d).seen ∧
+    ∀ k, dget (invokeRequest w stmts above site r comb ctxObj d).attrs k
+      = (specInvokeRequest w stmts above site r comb ctxObj d).attr k := by
+  obtain ⟨h1, h2, h3⟩ := excview_eq_spec w stmts site r comb ctxObj d hc hw
+  simp only [invokeRequest, specInvokeRequest]
+  cases above.before with
+  | some e => exact ⟨rfl, rfl, fun _ => rfl⟩
+  | none =>
+    simp only
+    rw [← h1]
+    cases ho : (excviewTween w stmts site r comb ctxObj d).outcome with
+    | error x => simp only; exact ⟨h1, h2, h3⟩
+    | ok resp =>
+      cases above.after with
+      | none => simp only; exact ⟨h1, h2, h3⟩
+      | some e => exact ⟨rfl, h2, h3⟩
+
+/-- **Sites above the excview tween**: under `default_execution_policy` an exception raised by a tween placed over the
+excview tween, by a response callback or by a `NewResponse` subscriber propagates to the server as the same object; no
+exception view is consulted for it; the request's attributes are as the tween left them (as before, when the tween
+never ran). -/
+theorem above_sites_propagate (w : World) (stmts : List Stmt) (site : Site) (r : Request) (comb : List Nat) (ctxObj : Nat)
+    (d : Dict) (e : Exc) :
+    (executionPolicy .default w stmts ⟨some e, none⟩ site r comb ctxObj d).outcome = .error e ∧
+    (executionPolicy .default w stmts ⟨some e, none⟩ site r comb ctxObj d).attrs = d ∧
+    (executionPolicy .default w stmts ⟨some e, none⟩ site r comb ctxObj d).seen = none ∧
+    (∀ resp, (excviewTween w stmts site r comb ctxObj d).outcome = .ok resp →
+      (executionPolicy .default w stmts ⟨none, some e⟩ site r comb ctxObj d).outcome = .error e ∧
+      (executionPolicy .default w stmts ⟨none, some e⟩ site r comb ctxObj d).attrs
+        = (excviewTween w stmts site r comb ctxObj d).attrs) := by
+  refine ⟨rfl, rfl, rfl, ?_⟩
+  intro resp hr
+  simp [executionPolicy, invokeRequest, hr]
+
+/-- **The execution policy as a whole** (default, or invoking the exception view itself) against its declarative
+reading. -/
+theorem policy_eq_spec (p : Policy) (w : World) (stmts : List Stmt) (above : Above) (site : Site) (r : Request)
+    (comb : List Nat) (ctxObj : Nat) (d : Dict) (hc : Coherent (allRegs w.sec stmts)) (hw : w.ok = true) :
+    (executionPolicy p w stmts above site r comb ctxObj d).outcome = (specPolicy p w stmts above site r comb ctxObj d).outcome ∧
+    (executionPolicy p w stmts above site r comb ctxObj d).seen = (specPolicy p w stmts above site r comb ctxObj d).seen ∧
+    ∀ k, dget (executionPolicy p w stmts above site r comb ctxObj d).attrs k
+      = (specPolicy p w stmts above site r comb ctxObj d).attr k := by
+  obtain ⟨h1, h2, h3⟩ := invokeRequest_eq_spec w stmts above site r comb ctxObj d hc hw
+  simp only [executionPolicy, specPolicy]
+  rw [← h1]
+  cases p with
+  | default => exact ⟨h1, h2, h3⟩
+  | invoking args =>
+    cases ho : (invokeRequest w stmts above site r comb ctxObj d).outcome with
+    | ok resp => simp only; exact ⟨h1, h2, h3⟩
+    | error x =>
+      simp only
+      exact invoke_full_eq_spec w stmts { r with lineage := [] } comb args x _ _ h3 hc
+
+/-- **Sequential handling: a request that already carries exception attributes keeps them on a no-match.**  The tween
+rendered `e1` (so `request.exception` / `exc_info` are `e1`), then something above the tween raised `e2` (a response
+callback, say), the execution policy invoked the exception view for `e2` and no exception view qualified: whatever
+propagates, `request.exception` and `request.exc_info` still are `e1` — restored, not removed — and every other
+attribute is as the tween left it. -/
+theorem attrs_restored_on_no_match_after_earlier_exception (w : World) (stmts : List Stmt) (site : Site) (r : Request)
+    (comb : List Nat) (ctxObj : Nat) (d : Dict) (e1 e2 : Exc) (resp : Resp) (args : InvokeArgs)
+    (hc : Coherent (allRegs w.sec stmts)) (hw : w.ok = true)
+    (hcaught : (excviewTween w stmts site r comb ctxObj d).caught = some e1)
+    (hresp : (excviewTween w stmts site r comb ctxObj d).outcome = .ok resp)
+    (hnone : excWinner w stmts (effectiveRequest args { r with lineage := [] }) (effectiveExc args e2) comb = none) :
+    let res := executionPolicy (.invoking args) w stmts ⟨none, some e2⟩ site r comb ctxObj d
+    (∃ x, res.outcome = .error x) ∧ res.seen = none ∧
+    dget res.attrs "exception" = some e1.id ∧ dget res.attrs "exc_info" = some e1.id ∧
+    ∀ k, k ≠ "exception" → k ≠ "exc_info" → dget res.attrs k = dget d k := by
+  obtain ⟨p1, p2, p3⟩ := policy_eq_spec (.invoking args) w stmts ⟨none, some e2⟩ site r comb ctxObj d hc hw
+  obtain ⟨a1, a2, a3⟩ := exception_attr_persists w stmts site r comb ctxObj d e1 resp hc hw hcaught hresp
+  obtain ⟨q1, _, q3⟩ := excview_eq_spec w stmts site r comb ctxObj d hc hw
+  rw [hresp] at q1
+  have hsp : specPolicy (.invoking args) w stmts ⟨none, some e2⟩ site r comb ctxObj d
+      = specInvoke w stmts { r with lineage := [] } comb args e2 (expected w stmts site r comb ctxObj d).attr := by
+    simp only [specPolicy, specInvokeRequest, ← q1]
+  rw [hsp] at p1 p2 p3
+  simp only [specInvoke, specCore, hnone] at p1 p2 p3
+  refine ⟨⟨_, p1⟩, p2, ?_, ?_, ?_⟩
+  · rw [p3, ← q3]; exact a1
+  · rw [p3, ← q3]; exact a2
+  · intro k hk1 hk2; rw [p3, ← q3]; exact a3 k hk1 hk2
+
+/-- **Predicates of an exception view see the original request; `containment` the original context.**  The record the
+exception-view lookup uses keeps everything of the request (method, parameters, headers, matchdict, route binding through
+`combined`); `containment` is evaluated on `request.context` — the ORIGINAL context — when the request has one and on the
+exception otherwise; `physical_path` is asked about the exception object, which has no `__name__`: it never holds. -/
+theorem exception_view_predicates_context (r : Request) (e : Exc) (comb : List Nat) (i : Nat) (val : List String) :
+    (r.lineage ≠ [] → (Cond.containment i).eval (excRequest r e comb) = (Cond.containment i).eval r) ∧
+    (r.lineage = [] → (Cond.containment i).eval (excRequest r e comb) = e.sro.contains i) ∧
+    (Cond.physicalPath val).eval (excRequest r e comb) = false ∧
+    (∀ vals, (Cond.method vals).eval (excRequest r e comb) = (Cond.method vals).eval r) ∧
+    (∀ reqs, (Cond.params reqs).eval (excRequest r e comb) = (Cond.params reqs).eval r) ∧
+    (∀ vals, (Cond.headers vals).eval (excRequest r e comb) = (Cond.headers vals).eval r) ∧
+    (∀ reqs, (Cond.matchParam reqs).eval (excRequest r e comb) = (Cond.matchParam reqs).eval r) := by
+  refine ⟨?_, ?_, ?_, ?_, ?_, ?_, ?_⟩
+  · intro h
+    cases hl : r.lineage with
+    | nil => exact absurd hl h
+    | cons a rest => simp [Cond.eval, excRequest, hl]
+  · intro h; simp [Cond.eval, excRequest, h]
+  · simp [Cond.eval, excRequest]
+  · intro vals; rfl
+  · intro reqs; rfl
+  · intro vals; rfl
+  · intro reqs; rfl
+
 /-! ## registration: which classifier, which protection -/
 
 /-- **`exception_only` views are not ordinary views; non-exception contexts give no exception view; otherwise both.** -/
@@ -406,12 +612,13 @@ private def worldW : World where
   excNotFound := excOf 1003 [46, 80, 0] true (some 404)
   excMismatch := excOf 1004 [52, 46, 80, 0] true (some 404)
   excForbidden := excOf 1005 [45, 80, 0] false (some 403)
+  viewResponse := 901
 
 /-- `add_view(v1, context=X0, permission='p')`; a subscriber raises `X1(X0)`; the policy refuses.  The exception view
 qualifies (it is the winner), yet what leaves the tween is a new `HTTPForbidden` — neither a response of `v1` nor the
 original exception.  (The harness replays this witness on the real code: corpus `w01`.) -/
 theorem protected_exception_view_refusal_propagates :
-    let stmts : List Stmt := [⟨0, 100, "", [], none, .named, true, false, 1, .respond⟩]
+    let stmts : List Stmt := [⟨0, 100, "", [], none, .named, true, false, 1, .respond, false⟩]
     let e : Exc := excOf 500 [101, 100, 42, 0] false none
     let res := excviewTween worldW stmts (.early e) reqW [0, 50] 700 []
     coherentB (allRegs worldW.sec stmts) = true ∧ worldW.ok = true ∧
@@ -432,10 +639,10 @@ exception; attributes persist; a prior `request.exception` survives a no-match. 
 example :
     let stmts : List Stmt :=
       [defaultStmt 80 9000,
-       ⟨0, 103, "", [⟨"request_method", false, .method ["POST"]⟩], none, .noPermissionRequired, true, true, 1, .respond⟩,
-       ⟨1, 100, "", [], none, .noPermissionRequired, true, true, 2, .respond⟩,
-       ⟨0, 100, "", [⟨"header", false, .headers ["X-A"]⟩], none, .unset, true, false, 3, .respond⟩,
-       ⟨0, 0, "", [], none, .unset, false, false, 4, .raise (excOf 2004 [103, 101, 100, 102, 46, 80, 42, 0] true (some 404))⟩]
+       ⟨0, 103, "", [⟨"request_method", false, .method ["POST"]⟩], none, .noPermissionRequired, true, true, 1, .respond, false⟩,
+       ⟨1, 100, "", [], none, .noPermissionRequired, true, true, 2, .respond, false⟩,
+       ⟨0, 100, "", [⟨"header", false, .headers ["X-A"]⟩], none, .unset, true, false, 3, .respond, false⟩,
+       ⟨0, 0, "", [], none, .unset, false, false, 4, .raise (excOf 2004 [103, 101, 100, 102, 46, 80, 42, 0] true (some 404)), false⟩]
     let e : Exc := excOf 500 [103, 101, 100, 102, 46, 80, 42, 0] true (some 404)
     let routed := excviewTween worldW stmts (.early e) reqP [20, 1, 0, 50] 700 [("exception", 600), ("exc_info", 600)]
     let plain := excviewTween worldW stmts (.early e) reqP [0, 50] 700 []
@@ -456,8 +663,8 @@ in its slot and qualifies; the combined order is `[20, 1] ++ 0 :: [50]`, the exc
 winner (view 2) comes from the earlier, route-bound interface 1 -/
 example :
     let stmts : List Stmt :=
-      [⟨1, 100, "", [], none, .noPermissionRequired, true, true, 2, .respond⟩,
-       ⟨0, 100, "", [⟨"header", false, .headers ["X-A"]⟩], none, .unset, true, false, 3, .respond⟩]
+      [⟨1, 100, "", [], none, .noPermissionRequired, true, true, 2, .respond, false⟩,
+       ⟨0, 100, "", [⟨"header", false, .headers ["X-A"]⟩], none, .unset, true, false, 3, .respond, false⟩]
     let e : Exc := excOf 500 [103, 101, 100, 102, 46, 80, 42, 0] true (some 404)
     let reg : ViewReg := ⟨clsExc, 0, 100, "", [⟨"header", false, .headers ["X-A"]⟩], none, false, 3⟩
     derive reg ∈ inForce (slotRegs (allRegs worldW.sec stmts) ⟨clsExc, 0, 100, ""⟩) ∧
@@ -466,10 +673,35 @@ example :
     (excWinner worldW stmts reqP e [20, 1, 0, 50]).map (·.tag) = some 2 := by
   decide +kernel
 
+/-- sequential handling (the shape of `attrs_restored_on_no_match_after_earlier_exception`): the tween renders `X1` with
+view 1 (which also touches `request.response`), a response callback then raises a `KeyError`, the execution policy invokes
+the exception view for it (`exc_info` not given, `reraise=True`), no view qualifies: the `KeyError` itself leaves, the
+request still says `exception = exc_info = X1`, and `response` is the one from before; with `reraise=False` an
+`HTTPNotFound` leaves instead; explicit invocation of a tween-over-excview exception equals what the tween gives. -/
+example :
+    let stmts : List Stmt := [⟨0, 100, "", [], none, .noPermissionRequired, true, true, 1, .respond, true⟩]
+    let e1 : Exc := excOf 500 [101, 100, 42, 0] false none
+    let e2 : Exc := excOf 550 [47, 42, 0] false none
+    let d : Dict := [("response", 900)]
+    let tw := excviewTween worldW stmts (.early e1) reqP [0, 50] 700 d
+    let seq := executionPolicy (.invoking ⟨none, true, true⟩) worldW stmts ⟨none, some e2⟩ (.early e1) reqP [0, 50] 700 d
+    let seq' := executionPolicy (.invoking ⟨none, true, false⟩) worldW stmts ⟨none, some e2⟩ (.early e1) reqP [0, 50] 700 d
+    let over := executionPolicy (.invoking ⟨none, true, true⟩) worldW stmts ⟨some e1, none⟩ .lookup reqP [0, 50] 700 d
+    let dflt := executionPolicy .default worldW stmts ⟨none, some e2⟩ (.early e1) reqP [0, 50] 700 d
+    coherentB (allRegs worldW.sec stmts) = true ∧
+    tw.outcome = .ok (.view 1) ∧ (tw.caught.map (·.id)) = some 500 ∧ dget tw.attrs "response" = some 900 ∧
+    excWinner worldW stmts (effectiveRequest ⟨none, true, true⟩ { reqP with lineage := [] }) (effectiveExc ⟨none, true, true⟩ e2) [0, 50] = none ∧
+    seq.outcome = .error e2 ∧ seq.seen = none ∧ dget seq.attrs "exception" = some 500 ∧ dget seq.attrs "exc_info" = some 500 ∧
+      dget seq.attrs "response" = some 900 ∧
+    seq'.outcome = .error worldW.excNotFound ∧ dget seq'.attrs "exception" = some 500 ∧
+    over.outcome = tw.outcome ∧ over.seen = tw.seen ∧ dget over.attrs "exception" = some 500 ∧
+    dflt.outcome = .error e2 ∧ dget dflt.attrs "exception" = some 500 := by
+  decide +kernel
+
 /-- hypotheses of `unmatched_url_yields_404` / `default_view_renders_http_exception` are satisfiable: only the default
 statement and an ordinary view named `x`; the URL `/` matches nothing -/
 example :
-    let stmts : List Stmt := [defaultStmt 80 9000, ⟨0, 0, "x", [], none, .unset, false, false, 1, .respond⟩]
+    let stmts : List Stmt := [defaultStmt 80 9000, ⟨0, 0, "x", [], none, .unset, false, false, 1, .respond, false⟩]
     coherentB (allRegs worldW.sec stmts) = true ∧ worldW.ok = true ∧
     expectedView (allRegs worldW.sec stmts) clsView reqW = .none ∧ worldW.notFound.status = some 404 ∧
     derive (defaultExcReg 80 9000) ∈ inForce (slotRegs (allRegs worldW.sec stmts) ⟨clsExc, 0, 80, ""⟩) ∧
